@@ -251,9 +251,63 @@ func init() {
 		} else {
 			return Result{}, fmt.Errorf("typesystem.go: isUsersetRewriteValid not found")
 		}
+		// F26: typesystem.New checks the shape of every type restriction before the model graph is built
+		shapeGuardBeforeGraph := false
+		var shapeGuardConds []string
+		if nw := findFunc(fT, "", "New"); nw != nil {
+			body := src(fsT, nw.Body)
+			gi := strings.Index(body, "checkRelationReferenceShape(")
+			bi := strings.Index(body, "graph.NewAuthorizationModelGraph(")
+			shapeGuardBeforeGraph = gi >= 0 && bi > gi
+		}
+		if sg := findFunc(fT, "", "checkRelationReferenceShape"); sg != nil {
+			ast.Inspect(sg.Body, func(n ast.Node) bool {
+				switch x := n.(type) {
+				case *ast.CaseClause:
+					for _, e := range x.List {
+						shapeGuardConds = append(shapeGuardConds, "case "+src(fsT, e))
+					}
+				case *ast.IfStmt:
+					shapeGuardConds = append(shapeGuardConds, "if "+src(fsT, x.Cond))
+				}
+				return true
+			})
+		}
+		// F27: the memory datastore answers a pagination token that is not an offset with ErrInvalidContinuationToken
+		fsM, fM, err := parseFile(repo, "pkg/storage/memory/memory.go")
+		if err != nil {
+			return Result{}, err
+		}
+		var tokenErrs []string
+		ast.Inspect(fM, func(n ast.Node) bool {
+			bs, ok := n.(*ast.BlockStmt)
+			if !ok {
+				return true
+			}
+			for i, st := range bs.List {
+				as, ok := st.(*ast.AssignStmt)
+				if !ok || !strings.Contains(src(fsM, as), "strconv.Atoi(options.Pagination.From)") || i+1 >= len(bs.List) {
+					continue
+				}
+				if is, ok := bs.List[i+1].(*ast.IfStmt); ok && src(fsM, is.Cond) == "err != nil" {
+					for _, s2 := range is.Body.List {
+						if rs, ok := s2.(*ast.ReturnStmt); ok {
+							tokenErrs = append(tokenErrs, src(fsM, rs))
+						}
+					}
+				}
+			}
+			return true
+		})
 		var sb strings.Builder
 		sb.WriteString(genHeader)
 		sb.WriteString("namespace OpenFGAVerif.Gen.Panics\n\n")
+		sb.WriteString("/-- typesystem.New calls checkRelationReferenceShape on the type restrictions before graph.NewAuthorizationModelGraph -/\n")
+		sb.WriteString(fmt.Sprintf("def shapeGuardBeforeGraph : Bool := %v\n", shapeGuardBeforeGraph))
+		sb.WriteString("/-- the cases and tests of checkRelationReferenceShape -/\n")
+		sb.WriteString("def shapeGuardConds : List String := " + leanStrList(shapeGuardConds) + "\n")
+		sb.WriteString("/-- memory datastore: what is returned when the pagination token is not an offset -/\n")
+		sb.WriteString("def memoryTokenParseErrors : List String := " + leanStrList(tokenErrs) + "\n\n")
 		sb.WriteString("/-- isUsersetRewriteValid starts with `if rewrite.GetUserset() == nil { return …ErrInvalidUsersetRewrite }` -/\n")
 		sb.WriteString(fmt.Sprintf("def rewriteNilGuardFirst : Bool := %v\n", nilGuardFirst))
 		sb.WriteString("/-- the sub-rewrites isUsersetRewriteValid recurses into -/\n")
